@@ -326,13 +326,14 @@ func (l *Listener) Addr() net.Addr { return l.addr }
 // ---- Conn -------------------------------------------------------------------------------------
 
 type Conn struct {
-	n     *Net
-	Name  string
-	peer  *Conn
-	mu    *sync.Mutex // shared by both ends
-	cond  *sync.Cond  // signalled on any change that may unblock this end
-	laddr *net.TCPAddr
-	raddr *net.TCPAddr
+	paused bool
+	n      *Net
+	Name   string
+	peer   *Conn
+	mu     *sync.Mutex // shared by both ends
+	cond   *sync.Cond  // signalled on any change that may unblock this end
+	laddr  *net.TCPAddr
+	raddr  *net.TCPAddr
 
 	in      [][]byte // inbound segments
 	inBytes int
@@ -367,6 +368,13 @@ func (c *Conn) Read(p []byte) (int, error) {
 		}
 		if c.rst {
 			return 0, c.opErr("read", &os.SyscallError{Syscall: "read", Err: syscall.ECONNRESET})
+		}
+		if c.paused {
+			// the application at this end is not reading (SetPaused): data stays queued
+			c.waiting++
+			c.cond.Wait()
+			c.waiting--
+			continue
 		}
 		if len(c.in) > 0 {
 			if len(p) == 0 {
@@ -571,6 +579,15 @@ func (c *Conn) SetWriteDeadline(t time.Time) error {
 }
 
 // ---- scripted-peer (non-blocking) interface ------------------------------------------------------
+
+// SetPaused makes Read at this end wait even when data is queued (an application that has stopped
+// reading its socket); combine with SetLimit to push back on the writer.
+func (c *Conn) SetPaused(v bool) {
+	c.mu.Lock()
+	c.paused = v
+	c.mu.Unlock()
+	c.cond.Broadcast()
+}
 
 // SetLimit bounds the number of bytes buffered towards this end (models a full receive window).
 func (c *Conn) SetLimit(n int) {
